@@ -303,36 +303,16 @@ def _run(ck, m):
 
 def reclaim_selects_every_entry(ck, m):
     """C11.i — see RULES"""
-    P = m.prog
-    sel = [b for b in P.user_bodies() if b.kind in ('fn', 'method') and b.locals[0].startswith('std::vec::Vec<(std::string::String, nundb::bo::Value)>')
-           and 'bool' in b.locals[1:b.argc + 1]]
-    n = 0
-    for sb in sel:
-        flag = [i for i in range(1, sb.argc + 1) if sb.locals[i] == 'bool']
-        for k, cb in P.bodies.items():
-            if not k.startswith(sb.id + '::{closure') or cb.promoted or cb.locals[0] != 'bool':
-                continue
-            n += 1
-            bad = []
-            for r in core.place_origins(cb, {'l': 0}):
-                if r[0] == 'const':
-                    if const_val(r) is not True:
-                        bad.append('the constant %s' % const_val(r))
-                elif r[0] == 'capture':
-                    # the captured reclaim flag: the closure's environment operand at that index comes from the bool parameter
-                    site = P.closure_sites().get(cb.id)
-                    okc = False
-                    if site is not None and r[1] < len(site[3]):
-                        okc = any(r2[0] == 'param' and r2[1] in flag for r2 in origins(site[0], site[3][r[1]]))
-                    if not okc:
-                        bad.append('a captured value that is not the reclaim flag')
-                else:
-                    bad.append('a computed value (%s)' % r[0])
-            ck.ob('C11.i', short(sb.id), 'reclaim-selection-total', not bad,
-                  'the selection predicate returns `true` or the reclaim flag: with reclaim every entry is selected' if not bad else
-                  'the selection predicate of the snapshot can return %s: while reclaiming, an entry it refuses (a key waiting for the arbiter, …) is '
-                  'written to neither rewritten file, the old value file is deleted and the backup removed — a previously persisted key is gone '
-                  'after the next restart' % sorted(set(bad)), '%s:%s' % (cb.file, cb.line))
+    from props.C06 import selection_shape
+    shp = selection_shape(m)
+    n = 1 if shp['found'] else 0
+    if shp['found']:
+        sb = shp['body']
+        ck.ob('C11.i', short(sb.id.split('::{closure')[0]), 'reclaim-selection-total', shp['total_when_reclaim'],
+              'with the reclaim flag set the selection takes every entry (%s)' % shp['why'] if shp['total_when_reclaim'] else
+              'the selection of the snapshot can refuse an entry while the reclaim flag is set (%s): an entry it refuses (a key waiting for the '
+              'arbiter, …) is written to neither rewritten file, the old value file is deleted and the backup removed — a previously persisted '
+              'key is gone after the next restart' % shp['why'], '%s:%s' % (sb.file, sb.line))
     ck.floor('C11.i', n, 1, 'selection predicates of the snapshot (entry filter with a reclaim flag)')
 
 
